@@ -145,6 +145,10 @@ def run(chk, prog):
                             "%s lets a descriptor or owner escape RAII in %s: the socket is not closed when the tunnel ends" % (short(c.path), fn.path))
     chk.instance("fd-escape", "src", "no into_raw_fd / mem::forget / ManuallyDrop / Box::leak call in the crate", n == 0, "searched %d functions" % len(prog.by_crate["redproxy_rs"]))
 
+    # ---------------------------------------------------------------- AsyncFd readiness discipline (splice mode must not hang)
+    from . import shared
+    shared.rule_afd1(chk, prog)
+
     # ---------------------------------------------------------------- recorded as finished
     pr = prog.body_of(prog.one(r"^process_request$"))
     cpb = [c for c in pr.calls if re.search(r"copy::copy_bidi$", c.name or "")]
